@@ -146,6 +146,19 @@ class JinjaEvaluator(expr_base.Evaluator):
         return errors
 
     @classmethod
+    def _raise_on_undefined(cls, value):
+        if isinstance(value, dict):
+            for k, v in value.items():
+                cls._raise_on_undefined(k)
+                cls._raise_on_undefined(v)
+        elif isinstance(value, (list, tuple)):
+            for v in value:
+                cls._raise_on_undefined(v)
+        elif isinstance(value, jinja2.runtime.StrictUndefined):
+            # Accessing the undefined value raises UndefinedError with the error description.
+            str(value)
+
+    @classmethod
     def _evaluate_and_expand(cls, text, data=None):
         exprs = cls._regex_parser.findall(text)
         block_exprs = cls._regex_block_parser.findall(text)
@@ -175,6 +188,10 @@ class JinjaEvaluator(expr_base.Evaluator):
 
                     if inspect.isgenerator(result):
                         result = list(result)
+
+                    # An undefined value inside of a list or dict is as much an error as
+                    # an undefined result.
+                    cls._raise_on_undefined(result)
 
                     if isinstance(result, str):
                         result = cls._evaluate_and_expand(result, data)
